@@ -20,15 +20,28 @@ class SchemaDefinitionError(StathamError):
         )
 
 
+def _display(value) -> str:
+    """Render a value for an error message.
+
+    Some values have no ``repr`` (integers beyond the interpreter's
+    int-to-str digit limit raise ``ValueError``); reporting the validation
+    failure must not fail on them.
+    """
+    try:
+        return repr(value)
+    except ValueError:
+        return f"<{type(value).__name__} value too large to display>"
+
+
 class ValidationError(StathamError):
     """Raised when JSON Schema validation fails for input data."""
 
     @classmethod
     def from_validator(cls, property_, value, message) -> "ValidationError":
         value_string = (
-            f"{repr(property_.parent)}.{property_.name} = {repr(value)}`"
+            f"{repr(property_.parent)}.{property_.name} = {_display(value)}`"
             if property_.name != "<unbound>"
-            else repr(value)
+            else _display(value)
         )
         return cls(f"Failed validating `{value_string}`. {message}")
 
